@@ -439,6 +439,25 @@ impl Spec for C08 {
 pub fn run(tier: Tier) -> i32 {
     let mut run = Run::new("C08", tier.clone());
     let spec = Arc::new(C08 { thorough: tier.is_thorough() });
+    let spec_c = Arc::clone(&spec);
+    let confirm_one = move |w: &serde_json::Value| -> Result<Vec<String>, String> {
+        let r = confirm_stexp(&*spec_c, w)?;
+        if r.is_empty() && w["history"].as_array().map(|a| a.is_empty()).unwrap_or(false) {
+            // finding of the initial read battery
+            let label = w["init"].as_str().unwrap_or("");
+            for (l, mut ax, m) in spec_c.inits() {
+                if l == label {
+                    let mut v = vec![];
+                    spec_c.read_battery(&mut ax, &m, &format!("initial state {l}"), &mut v);
+                    return Ok(v.into_iter().map(|d| d.key).collect());
+                }
+            }
+        }
+        Ok(r)
+    };
+    if let Some(art) = crate::common::replay_artefact() {
+        return crate::common::finish_replay("C08", &art, &|ws| ws.iter().map(|w| confirm_one(w)).collect());
+    }
     // the read battery of the initial states (stexp runs invariants only; do it here)
     for (label, mut ax, m) in spec.inits() {
         let mut v = vec![];
@@ -453,20 +472,5 @@ pub fn run(tier: Tier) -> i32 {
     run.cov("layouts_created", json!(spec.inits().iter().map(|i| i.0.clone()).collect::<Vec<_>>()));
     run.guard("states", out.states >= 200, format!("{} states", out.states));
     run.assume("zero-length accesses: only no-crash/no-change is demanded");
-    let spec2 = Arc::clone(&spec);
-    run.finish(&move |w| {
-        let r = confirm_stexp(&*spec2, w)?;
-        if r.is_empty() && w["history"].as_array().map(|a| a.is_empty()).unwrap_or(false) {
-            // finding of the initial read battery
-            let label = w["init"].as_str().unwrap_or("");
-            for (l, mut ax, m) in spec2.inits() {
-                if l == label {
-                    let mut v = vec![];
-                    spec2.read_battery(&mut ax, &m, &format!("initial state {l}"), &mut v);
-                    return Ok(v.into_iter().map(|d| d.key).collect());
-                }
-            }
-        }
-        Ok(r)
-    })
+    run.finish(&confirm_one)
 }
